@@ -79,9 +79,10 @@ def trees(tier, seed):
     """Every tree of the grammar (shapes x leaf menu x passes x granularity)."""
     th = tier == "thorough"
     grans = (1, 2, 3) if th else (1, 2)
-    pass_sets = [(0, 0, 0), (1, 0, 0), (0, 1, 0), (1, 1, 0)]
+    # third flag: the dynamic (range-based) discretisation pass
+    pass_sets = [(0, 0, 0), (1, 0, 0), (0, 1, 0), (1, 1, 0), (0, 0, 1)]
     if th:
-        pass_sets += [(0, 0, 1), (1, 1, 1)]
+        pass_sets += [(1, 1, 1)]
     for gran in grans:
         menu = leaf_menu(tier, gran)
         maxable = [m for m in menu if m[0] in ("c", "w")]
@@ -370,7 +371,31 @@ def tree_features(tree):
             residues.add(n["start"] % g)
         elif k == "windowed":
             residues.add(0)
-    return {"dead_child_under_min_or_lessthan": dead_child,
+    # the dynamic discretisation pass only looks at leaves that are independent (parent
+    # is not a Max), Allocations, and the children of a Max whose children are all
+    # Choose; its first time range starts at the earliest of those
+    parent_of = {}
+    for i, n in enumerate(nodes):
+        for c in n.get("children", []):
+            parent_of.setdefault(c, i)
+    counted, uncounted = [], []
+    for i, n in enumerate(nodes):
+        if n["kind"] not in ("choose", "windowed", "allocation", "malleable"):
+            continue
+        par = nodes[parent_of[i]] if i in parent_of else None
+        if par is not None and par["kind"] == "max" and n["kind"] != "allocation":
+            if all(nodes[c]["kind"] == "choose" for c in par["children"]):
+                counted.append(n["start"])
+            else:
+                uncounted.append(n["start"])
+        elif n["kind"] in ("choose", "windowed", "allocation"):
+            counted.append(n["start"])
+        else:
+            uncounted.append(n["start"])
+    before_first = bool(tree["passes"][2]) and bool(counted) and \
+        any(u < min(counted) for u in uncounted)
+    return {"dynamic_pass_leaf_before_first_range": before_first,
+            "dead_child_under_min_or_lessthan": dead_child,
             "trivially_ordered_lessthan": trivial_lt,
             "min_over_allocations_only": min_alloc_only,
             "starts_aligned_to_grid": len(residues) <= 1,
